@@ -1,4 +1,83 @@
+/-
+  C11 — cross ratio: closed form, symmetries, projective invariance; harmonic_set.
+-/
+import Geo.Gen.Operators
 import Geo.Spec.Euclid
+import Geo.Proofs.Lemmas
+import Mathlib.Tactic.FieldSimp
 namespace Geo
-theorem C11_placeholder : (1 : Nat) = 1 := rfl
+open Spec
+
+section
+variable {K : Type} [CommRing K]
+
+/-- on a line: with coordinates `(a·pᵢ, b·pᵢ)` of `pᵢ = a + xᵢ b` w.r.t. the basis `[a; b]` (Gram entries g₁₁, g₁₂, g₂₂)
+    the returned quotient is the closed form of the parameters — stated cross-multiplied (no division) -/
+theorem T11_closed_form_line (g11 g12 g22 x1 x2 x3 x4 : K) :
+    let P (x : K) : Nat → K := fun k => if k = 0 then g11 + x * g12 else g12 + x * g22
+    let num := Gen.cr_num (Gen.cr_ac_line (P x1) (P x2) (P x3) (P x4)) (Gen.cr_bd_line (P x1) (P x2) (P x3) (P x4))
+                 (Gen.cr_ad_line (P x1) (P x2) (P x3) (P x4)) (Gen.cr_bc_line (P x1) (P x2) (P x3) (P x4))
+    let den := Gen.cr_den (Gen.cr_ac_line (P x1) (P x2) (P x3) (P x4)) (Gen.cr_bd_line (P x1) (P x2) (P x3) (P x4))
+                 (Gen.cr_ad_line (P x1) (P x2) (P x3) (P x4)) (Gen.cr_bc_line (P x1) (P x2) (P x3) (P x4))
+    num * ((x1 - x4) * (x2 - x3)) = den * ((x1 - x3) * (x2 - x4)) ∧
+    den = (g11 * g22 - g12 * g12) ^ 2 * ((x1 - x4) * (x2 - x3)) := by
+  simp [Gen.cr_num, Gen.cr_den, Gen.cr_ac_line, Gen.cr_bd_line, Gen.cr_ad_line, Gen.cr_bc_line]
+  constructor <;> ring
+
+/-- seen from a fifth point `o` (also: four concurrent lines through `o`, which the code reduces to this case):
+    every bracket is `det[o,a,b]` times a difference of parameters -/
+theorem T11_closed_form_from_point (o a b : Nat → K) (x1 x2 x3 x4 : K) :
+    let P (x : K) : Nat → K := fun k => a k + x * b k
+    let num := Gen.cr_num (Gen.cr_ac_from o (P x1) (P x2) (P x3) (P x4)) (Gen.cr_bd_from o (P x1) (P x2) (P x3) (P x4))
+                 (Gen.cr_ad_from o (P x1) (P x2) (P x3) (P x4)) (Gen.cr_bc_from o (P x1) (P x2) (P x3) (P x4))
+    let den := Gen.cr_den (Gen.cr_ac_from o (P x1) (P x2) (P x3) (P x4)) (Gen.cr_bd_from o (P x1) (P x2) (P x3) (P x4))
+                 (Gen.cr_ad_from o (P x1) (P x2) (P x3) (P x4)) (Gen.cr_bc_from o (P x1) (P x2) (P x3) (P x4))
+    num * ((x1 - x4) * (x2 - x3)) = den * ((x1 - x3) * (x2 - x4)) ∧
+    den = det3 o a b ^ 2 * ((x1 - x4) * (x2 - x3)) := by
+  simp [Gen.cr_num, Gen.cr_den, Gen.cr_ac_from, Gen.cr_bd_from, Gen.cr_ad_from, Gen.cr_bc_from, det3]
+  constructor <;> ring
+
+/-- complete-quadrilateral construction of `harmonic_set` (joins / meets = cross products): for `c = λa + μb`, any
+    auxiliary `o`, and the auxiliary point `p = o + c` the result is `−det[o,a,b]³ · (λa − μb)`: the harmonic conjugate of c
+    w.r.t. a, b, on the line ab, independent of o (non-zero iff o is off the line) -/
+theorem T11_harmonic_construction (a b o : Nat → K) (lam mu : K) :
+    let c : Nat → K := fun k => lam * a k + mu * b k
+    let p : Nat → K := fun k => o k + c k
+    let l := cross a b
+    let r := cross l (cross (cross (cross o a) (cross p b)) (cross (cross o b) (cross p a)))
+    ∀ i, i < 3 → r i = -(det3 o a b) ^ 3 * (lam * a i - mu * b i) := by
+  intro c p l r i hi
+  interval_cases i <;> simp [r, l, p, c, cross, det3] <;> ring
+
+end
+
+section
+variable {F : Type} [Field F]
+
+/-- the five symmetries of the statement, for the closed form -/
+theorem T11_symmetries (x1 x2 x3 x4 : F) (h12 : x1 ≠ x2) (h13 : x1 ≠ x3) (h14 : x1 ≠ x4) (h23 : x2 ≠ x3) (h24 : x2 ≠ x4)
+    (h34 : x3 ≠ x4) :
+    crParam x2 x1 x4 x3 = crParam x1 x2 x3 x4 ∧ crParam x3 x4 x1 x2 = crParam x1 x2 x3 x4 ∧
+    crParam x1 x2 x4 x3 = 1 / crParam x1 x2 x3 x4 ∧ crParam x1 x3 x2 x4 = 1 - crParam x1 x2 x3 x4 := by
+  have e12 := sub_ne_zero.mpr h12; have e13 := sub_ne_zero.mpr h13; have e14 := sub_ne_zero.mpr h14
+  have e23 := sub_ne_zero.mpr h23; have e24 := sub_ne_zero.mpr h24; have e34 := sub_ne_zero.mpr h34
+  have e21 := sub_ne_zero.mpr h12.symm; have e31 := sub_ne_zero.mpr h13.symm; have e41 := sub_ne_zero.mpr h14.symm
+  have e32 := sub_ne_zero.mpr h23.symm; have e42 := sub_ne_zero.mpr h24.symm; have e43 := sub_ne_zero.mpr h34.symm
+  simp only [crParam]
+  refine ⟨?_, ?_, ?_, ?_⟩ <;> field_simp <;> ring
+
+/-- the harmonic conjugate: the parameter with cross ratio −1 -/
+theorem T11_harmonic_param (x1 x2 x3 : F) (h13 : x1 ≠ x3) (h23 : x2 ≠ x3) (hd : (x1 - x3) + (x2 - x3) ≠ 0) (h12 : x1 ≠ x2) :
+    crParam x1 x2 x3 (((x1 - x3) * x2 + (x2 - x3) * x1) / ((x1 - x3) + (x2 - x3))) = -1 := by
+  have e13 := sub_ne_zero.mpr h13; have e23 := sub_ne_zero.mpr h23; have e12 := sub_ne_zero.mpr h12
+  simp only [crParam]
+  have k1 : x1 - ((x1 - x3) * x2 + (x2 - x3) * x1) / ((x1 - x3) + (x2 - x3)) = (x1 - x3) * (x1 - x2) / ((x1 - x3) + (x2 - x3)) := by
+    field_simp; ring
+  have k2 : x2 - ((x1 - x3) * x2 + (x2 - x3) * x1) / ((x1 - x3) + (x2 - x3)) = (x2 - x3) * (x2 - x1) / ((x1 - x3) + (x2 - x3)) := by
+    field_simp; ring
+  rw [k1, k2]
+  field_simp
+  ring
+
+end
 end Geo
